@@ -1,3 +1,137 @@
 package main
 
-func selfTest(kind string) int { return 0 }
+import (
+	"fmt"
+	"os"
+	"sync"
+
+	"github.com/google/safehtml/simrt"
+)
+
+// Self-tests of the simulator itself (run by setup.sh / selftest.sh).
+//
+//	-selftest determinism -prop Cxx -from a -to b
+//	    for every run index: generate the case, execute it in record mode,
+//	    execute the resulting explicit case again, demand identical event-log
+//	    and result hashes, and print one line per run so that the caller can
+//	    diff the output of several processes (different GOMAXPROCS, builds).
+//	-selftest racetoy
+//	    race build only: a known racy toy must be reported, a known race-free
+//	    toy must not (DESIGN §3.4).
+
+func resultDigest(o *Outcome) uint64 {
+	h := uint64(1469598103934665603)
+	for _, r := range o.flat() {
+		h = h*1099511628211 ^ hashString(fmt.Sprintf("%d|%d|%s|%s|%q|%v|%v|%v|%v|%d|%d|%s|%s", r.OpID, r.Task, r.Kind, r.Target, r.Out, r.Err == "", r.Probes, r.Names, r.Found, r.Inv, r.Ret, r.Panic, r.Skipped))
+	}
+	return h
+}
+
+func selfTest(kind string) int {
+	switch kind {
+	case "determinism":
+		return selfTestDeterminism()
+	case "racetoy":
+		return selfTestRaceToy()
+	}
+	fmt.Fprintln(os.Stderr, "unknown selftest", kind)
+	return 2
+}
+
+func selfTestDeterminism() int {
+	warmUp()
+	bad := 0
+	for run := *fFrom; run < *fTo; run++ {
+		c := generate(*fProp, runSeedFor(*fSeed, *fProp, run), run)
+		o1 := runCase(c) // record mode; c becomes explicit
+		h1 := fmt.Sprintf("%x/%x/%x/%d", o1.DefSt.Hash, o1.Stats.Hash, resultDigest(o1), o1.Stats.Switches)
+		o2 := runCase(c.clone())
+		h2 := fmt.Sprintf("%x/%x/%x/%d", o2.DefSt.Hash, o2.Stats.Hash, resultDigest(o2), o2.Stats.Switches)
+		if h1 != h2 {
+			bad++
+			fmt.Printf("run %d RECORD/REPLAY MISMATCH %s vs %s\n", run, h1, h2)
+			if os.Getenv("SELFTEST_VERBOSE") != "" {
+				a, b := o1.flat(), o2.flat()
+				for i := range a {
+					if i < len(b) {
+						x := fmt.Sprintf("%d|%s|%s|%q|%q|%v|%v|%d|%d|%s", a[i].OpID, a[i].Kind, a[i].Target, a[i].Out, a[i].Err, a[i].Probes, a[i].Names, a[i].Inv, a[i].Ret, a[i].Panic)
+						y := fmt.Sprintf("%d|%s|%s|%q|%q|%v|%v|%d|%d|%s", b[i].OpID, b[i].Kind, b[i].Target, b[i].Out, b[i].Err, b[i].Probes, b[i].Names, b[i].Inv, b[i].Ret, b[i].Panic)
+						if x != y {
+							fmt.Printf("   A %s\n   B %s\n", x, y)
+						}
+					}
+				}
+			}
+			continue
+		}
+		// verdict of the oracle as well (twins included)
+		cr := check(c.clone())
+		sig := ""
+		for _, v := range cr.viol {
+			sig += v.Sig + ";"
+		}
+		fmt.Printf("run %d %s viol=%s\n", run, h1, sig)
+	}
+	if bad > 0 {
+		return 2
+	}
+	return 0
+}
+
+var (
+	toyX  int
+	toyMu sync.Mutex
+)
+
+func toyRun(locked bool) {
+	simrt.Begin(simrt.Config{})
+	body := func() {
+		if locked {
+			simrt.Lock(&toyMu)
+		}
+		toyX++
+		if locked {
+			simrt.Unlock(&toyMu)
+		}
+	}
+	simrt.Go(body)
+	simrt.Go(body)
+	simrt.Run()
+}
+
+func selfTestRaceToy() int {
+	if !simrt.RaceBuild {
+		fmt.Println("racetoy: not a race build, nothing to test")
+		return 0
+	}
+	rl := newRaceLog()
+	if rl.path == "" {
+		fmt.Fprintln(os.Stderr, "racetoy: GORACE log_path not set")
+		return 2
+	}
+	warmUp()
+	rl.newReports()
+	// 1. a clean library workload under an interleaved schedule: no report
+	for run := 0; run < 40; run++ {
+		c := generate("C09", runSeedFor(4242, "C09", run), run)
+		runCase(c)
+	}
+	if rep := rl.newReports(); rep != "" {
+		fmt.Fprintf(os.Stderr, "racetoy: the simulator or the unchanged library was flagged:\n%s\n", clipN(rep, 3000))
+		return 2
+	}
+	// 2. two tasks touching one variable under the code's own mutex: no report
+	toyRun(true)
+	if rep := rl.newReports(); rep != "" {
+		fmt.Fprintf(os.Stderr, "racetoy: race-free toy was flagged:\n%s\n", clipN(rep, 2000))
+		return 2
+	}
+	// 3. same without the mutex, run strictly one after the other: must be reported
+	toyRun(false)
+	if rep := rl.newReports(); rep == "" {
+		fmt.Fprintln(os.Stderr, "racetoy: racy toy was NOT reported: the scheduler's hand-over is visible to the race detector")
+		return 2
+	}
+	fmt.Println("racetoy: ok (clean workload 0 reports, locked toy 0 reports, racy toy reported)")
+	return 0
+}
